@@ -131,10 +131,22 @@ Section UMNListing.
   Definition tag_origin (l : list (str * entry)) : list oentry :=
     map (fun ne => (Some (fst ne), snd ne)) l.
 
+  (* selectors of the children prep_entriesappend did not append (Type=X / - in .cap) *)
+  Definition cap_dropped (names : list str) : list str :=
+    flat_map (fun n => match child_entry w n with
+                       | Ok ci => match umn_append plf mode (w_cap w n) n ci with
+                                  | Ok None => [e_selector (ci_entry ci)]
+                                  | _ => []
+                                  end
+                       | Raise _ => []
+                       end) names.
+
   Definition umn_listing_gen (enum : list str) : result (list oentry) :=
     bind (umn_scan (enum_order fx enum) [] []) (fun fl =>
     bind (prep_entries (fx_skip_child fx) umn_child (sort_names (fst fl))) (fun fes =>
-    bind (merge_link_files fx (snd fl) (tag_origin fes)) (fun merged =>
+    bind (merge_link_files fx
+            (prune fx (cap_dropped (sort_names (fst fl))) (dict_lookup (tag_origin fes)) (snd fl))
+            (tag_origin fes)) (fun merged =>
     Ok (isort oentry_leb merged)))).
 End UMNListing.
 
